@@ -39,6 +39,13 @@ def avgRunCapped (F : Fns α) (d : Params α) (ns : List α) (minimize : Option 
 def avgRun (F : Fns α) (d : Params α) (ns : List α) (minimize : Option Bool) (atol : Option α) :
     Option (Nat × List α × List α) := avgRunCapped F d ns minimize atol 30
 
+/-- the same loop on the location-equivariant integrand `1 − Fⁿ` / `(1−F)ⁿ` integrated from `lo` (the repair
+proposed for finding F4; `Props/C09.navg_repaired_affine` is about this term); the value is `lo + T` -/
+def avgRunCappedRep (F : Fns α) (d : Params α) (ns : List α) (minimize : Option Bool) (atol : Option α)
+    (rounds : Nat) : Option (Nat × List α × List α) :=
+  TrapLoop.runCapped F.n (ns.map fun nn => TrapLoop.gRep F.n F.pow (cdf F d) (minimize.getD d.convex) nn)
+    (intLo F d) (intHi F d) (atolOf F d atol) rounds
+
 def averageTuningCurve (F : Fns α) (d : Params α) (ns : List α) (minimize : Option Bool) (atol : Option α) :
     Option (List α) :=
   (avgRun F d ns minimize atol).map fun r => r.2.1.map fun t => TrapLoop.tail F.n (intLo F d) (intHi F d) + t
